@@ -224,7 +224,7 @@ def other_activation(draw):
 @st.composite
 def cases(draw):
     act = st.one_of(*([gen.activation_general()] * 6 + [other_activation()]))
-    spec = draw(gen.engine(activation=act))
+    spec = draw(gen.engine(activation=act, functions=True))
     n = draw(st.sampled_from([1, 2, 3, 4, 6]))
     rows = [draw(gen.input_row(spec)) for _ in range(n)]
     return {"spec": spec, "rows": rows}
